@@ -3,7 +3,8 @@
    generated UnmarshalJSON methods and the __unmarshal<Interface> helpers), run on the
    declarations of Gen/Convert.v.  Bytes that are not JSON at all are rejected by encoding/json's
    scanner before any generated code runs (trusted, exercised by the byte-mutation stream). *)
-From Verif Require Import Base.Str Gen.Consts Gen.Gql Gen.Directive Gen.Convert Rt.JsonDecode Proofs.JsonProofs.
+From Verif Require Import Base.Str Gen.Consts Gen.Gql Gen.Directive Gen.Convert Rt.JsonDecode Proofs.JsonProofs
+  Proofs.FuelProofs Proofs.ShapeProofs.
 
 (* for EVERY typemap, type, JSON value and depth: the decoders return a value or an error *)
 Theorem C19_no_panic :
@@ -82,3 +83,28 @@ Theorem C19_templates_as_modelled :
   /\ tmpl_unmarshal_helper_has_default_arm = true.
 Proof. repeat split; reflexivity. Qed.
 Print Assumptions C19_templates_as_modelled.
+
+(* "never loops", as far as the fuel-indexed model can say it: fuel only bounds the depth --
+   once any result is produced, every larger fuel produces the same result (all five decoders) *)
+Theorem C19_result_independent_of_fuel :
+  forall tm w f,
+    (forall t j cur, defined (decode tm w f t j cur) -> decode tm w (S f) t j cur = decode tm w f t j cur)
+    /\ (forall n fields j cur, defined (plain_struct tm w f n fields j cur) -> plain_struct tm w (S f) n fields j cur = plain_struct tm w f n fields j cur)
+    /\ (forall n fields j cur, defined (unmarshal_struct tm w f n fields j cur) -> unmarshal_struct tm w (S f) n fields j cur = unmarshal_struct tm w f n fields j cur)
+    /\ (forall n ptr leaf c cur, defined (fill tm w f n ptr leaf c cur) -> fill tm w (S f) n ptr leaf c cur = fill tm w f n ptr leaf c cur)
+    /\ (forall i j cur, defined (unmarshal_iface tm w f i j cur) -> unmarshal_iface tm w (S f) i j cur = unmarshal_iface tm w f i j cur).
+Proof. exact decode_fuel_monotone. Qed.
+Print Assumptions C19_result_independent_of_fuel.
+
+Theorem C19_any_two_sufficient_fuels_agree :
+  forall tm w f d t j cur, defined (decode tm w f t j cur) -> decode tm w (d + f) t j cur = decode tm w f t j cur.
+Proof. exact decode_fuel_irrelevant. Qed.
+Print Assumptions C19_any_two_sufficient_fuels_agree.
+
+(* never mis-typed: whatever the JSON, a decoded value has the Go kind of the type it was decoded
+   into; an interface type holds nil or one of ITS implementations *)
+Theorem C19_never_mistyped :
+  forall tm fuel t j cur v,
+  decode tm true fuel t j cur = Ok v -> shape_ok tm t cur -> shape_ok tm t v.
+Proof. exact decode_shape. Qed.
+Print Assumptions C19_never_mistyped.
